@@ -254,11 +254,51 @@ pub fn dw(text: &str) -> usize {
     dw_oracle(text).unwrap_or_else(|| textwrap::core::display_width(text))
 }
 
-pub fn count_nonzero_width_chars(text: &str) -> usize {
-    match strip_ansi(text) {
-        Some(s) => s.chars().filter(|c| ch_width_oracle(*c) > 0).count(),
-        None => text.chars().filter(|c| ch_width_oracle(*c) > 0).count(),
+/// the characters of `text` that display_width counts, per C10's wording, also for sequences that are cut short: after ESC, `[`
+/// hides everything through the first byte in `@..~` (or to the end), `]` everything through BEL or ESC `\` (or to the end), any
+/// other character is hidden itself
+pub fn visible_chars(text: &str) -> Vec<char> {
+    let cs: Vec<char> = text.chars().collect();
+    let mut out = Vec::new();
+    let mut i = 0;
+    while i < cs.len() {
+        if cs[i] != ESC {
+            out.push(cs[i]);
+            i += 1;
+            continue;
+        }
+        i += 1;
+        if i >= cs.len() {
+            break;
+        }
+        match cs[i] {
+            '[' => {
+                i += 1;
+                while i < cs.len() && !('\x40'..='\x7e').contains(&cs[i]) {
+                    i += 1;
+                }
+                i += 1;
+            }
+            ']' => {
+                i += 1;
+                let mut last = ']';
+                while i < cs.len() {
+                    let c = cs[i];
+                    i += 1;
+                    if c == '\x07' || (c == '\\' && last == ESC) {
+                        break;
+                    }
+                    last = c;
+                }
+            }
+            _ => i += 1,
+        }
     }
+    out
+}
+
+pub fn count_nonzero_width_chars(text: &str) -> usize {
+    visible_chars(text).into_iter().filter(|c| ch_width_oracle(*c) > 0).count()
 }
 
 /// split at the configured line ending
